@@ -11,7 +11,7 @@
    demotes) or what a delete selects. *)
 From Coq Require Import List ZArith Bool.
 From Coq.Init Require Import Byte.
-From Sif Require Import Bytes Store Format Image Machine Inv Reach Crash CrashOps CrashBoundary.
+From Sif Require Import Bytes Store Format Image Machine Inv Reach Crash CrashOps CrashBoundary Integrity Sign SignCrash.
 Import ListNotations.
 Local Open Scope Z_scope.
 
@@ -52,6 +52,28 @@ Theorem C09_added_object_absent_or_complete :
                 nread (Z.to_nat (d_off d)) (Z.to_nat (d_size d)) st_c = di_content di)).
 Proof. exact add_interrupted_between_calls. Qed.
 
+(* Sign is a sequence of AddObject calls, one per group signer (`sign_all`;
+   `hash`, `encode_md`, `seal`, `signer_fp`: digests, json.Marshal, the
+   envelope encoder and its key).  Whichever of them is cut short, after
+   whatever prefix of its storage calls (the last write possibly torn), the
+   file still loads and every object the image held before signing is still
+   in its slot with the same descriptor and the same bytes.  (`sign_wf`: each
+   signature object has its Go types and fits, as `wf_ops` for histories.) *)
+Theorem C09_sign_interrupted_keeps_every_object :
+  forall hash sha256, (forall c, length (sha256 c) = 32%nat) ->
+  forall encode_md seal signer_fp s done gs rest o now s1 di m' r evs st_c,
+  Inv s -> sign_wf hash sha256 encode_md seal signer_fp s (done ++ gs :: rest) o now ->
+  sign_all hash sha256 encode_md seal signer_fp s done o now = (s1, SOk) ->
+  sign_input hash encode_md seal signer_fp (s_mem s1) (f_bytes (s_io s1)) gs = inl di ->
+  plan_add sha256 (s_mem s1) di o now = (m', r, evs) ->
+  crash_image evs (s_io s1) st_c ->
+  exists mc, load_image st_c = inl mc /\
+    forall j d, used_at (m_rds (s_mem s)) j d ->
+      nth_error (m_rds mc) j = Some d /\
+      nread (Z.to_nat (d_off d)) (Z.to_nat (d_size d)) st_c =
+      nread (Z.to_nat (d_off d)) (Z.to_nat (d_size d)) (f_bytes (s_io s)).
+Proof. exact sign_interrupted_keeps_objects. Qed.
+
 (* the structure behind it: the calls of every operation are data calls that
    stay away from the header, the table and every bystander's bytes, followed
    by nothing or by the table write and the header write, which re-write the
@@ -78,6 +100,7 @@ Theorem C09_preservation_principle :
 Proof. exact keeps_crash. Qed.
 
 Print Assumptions C09_interrupted_operation_keeps_bystanders.
+Print Assumptions C09_sign_interrupted_keeps_every_object.
 Print Assumptions C09_added_object_absent_or_complete.
 Print Assumptions C09_operation_calls.
 Print Assumptions C09_preservation_principle.
